@@ -377,6 +377,11 @@ class Gen:
             else:
                 t = r.choice(pool)
             size, signed = ALL_INTS[t]
+            spelled = None
+            if enum is None and self.o["aliases"] and self.chance(0.15):
+                cands = [a for a, c in INT_ALIASES.items() if c == t and " " not in a]
+                if cands:
+                    spelled = r.choice(cands)  # the storage type written under one of its alias names
             rem = size * 8
             # consecutive bit-fields of the same storage type continue the open unit
             st = getattr(self, "_bits", None)
@@ -388,7 +393,7 @@ class Gen:
                 if rem == 0:
                     break
                 b = rem if (fill and j == cnt - 1) else r.randint(1, rem)
-                node = enum if (enum is not None and self.chance(0.6)) else N_int(t)
+                node = enum if (enum is not None and self.chance(0.6)) else N_int(t, spelled if self.chance(0.7) else None)
                 nm = self.nm()
                 fields.append(F(nm, node, bits=b, bitsep=r.choice([" : ", ":", " :", ": "])))
                 if b <= 3 and node["k"] == "int":
@@ -487,6 +492,12 @@ class Gen:
                 x = 0.6
             if x < 0.26:
                 t = self.scalar_node()
+                if t["k"] == "enum" and not union and self.chance(0.5):
+                    # an enum/flag field may supply an array length as well (its value is an integer)
+                    fields.append(F(fname, t, len_src=True))
+                    int_names.append(fname)
+                    self.feat("len:enum-field")
+                    continue
                 fields.append(F(fname, t))
                 if t["k"] == "int" and t["t"] in ("uint8", "int8"):
                     int_names.append(fname)
